@@ -803,6 +803,12 @@ def fam_cancel(tier: str, rng: random.Random) -> Iterator[dict]:
                     p = Prog(fns, cons, [], [Cls([1])], [{"cls": 1, "st0": 0}], [drv])
                 p["fault"] = {"at": -1, "kind": kind, "n": n, "more": []}
                 p["tag"] = "cancel-{}-{}-n{}".format(variant, kind, n)
+                if kind in ("GenExit", "Exception"):
+                    # the same, closed / interrupted from another flow of control (a fresh context)
+                    q = json_copy(p)
+                    q["foreign_resume"] = True
+                    q["tag"] += "-foreign"
+                    yield q
                 yield p
 
 
